@@ -370,6 +370,18 @@ def run(ctx):
                     ctx.count("long_tail_sequences")
                     run_seq(ctx, head + ["b" * L], True)
                     run_seq(ctx, ["b" * L] + head, True)
+        # NEAR-dot segments: a dot segment with any path character stuck to it (segment parameters ';v=1', sub-delims, ':' '@' '~')
+        # is an ordinary segment - 5.2.4 knows only the COMPLETE segments '.' and '..'
+        if ctx.shard in (4, 5, 6, 7):
+            for dot in (".", ".."):
+                for c in "!$&'()*,;=@~-_":
+                    for near in (dot + c, c + dot, dot + c + "v=1", dot + c + dot):
+                        for seq in ([near], ["a", "b", near, "c"], ["a", near], [near, "a"], ["a", near, "..", "b"], ["a", "..", near, ""], ["a", near, ".", near]):
+                            i += 1
+                            if i % 4 != ctx.shard - 4:
+                                continue
+                            ctx.count("near_dot_sequences")
+                            run_seq(ctx, seq, True)
         ctx.sample({"segs": ["a", ".\udc80.", "b"]})
         ctx.notes["kernel_total"] = i
         return
